@@ -278,10 +278,17 @@ Section AbsPolyProps.
 Import Proofs.C20_AbsPoly.
 Local Open Scope R_scope.
 
-Theorem C20_iap_exact_quadratic : forall thr t0 t1 A B C, 0 <= thr -> t0 <= t1 -> thr < Rabs A ->
+(* quadratic regime of the code after /repo b9fcddd: thr <= |A| (non-strict) *)
+Theorem C20_iap_exact_quadratic : forall thr t0 t1 A B C, 0 < thr -> t0 <= t1 -> thr <= Rabs A ->
   is_RInt (absP A B C) t0 t1 (iapR thr t0 t1 A B C).
 Proof. exact iapR_exact_quadratic. Qed.
 Print Assumptions C20_iap_exact_quadratic.
+
+(* any threshold (also thr <= 0), as long as the leading coefficient is not zero *)
+Theorem C20_iap_exact_quadratic_gen : forall thr t0 t1 A B C, t0 <= t1 -> A <> 0 -> thr <= Rabs A ->
+  is_RInt (absP A B C) t0 t1 (iapR thr t0 t1 A B C).
+Proof. exact iapR_exact_quadratic_gen. Qed.
+Print Assumptions C20_iap_exact_quadratic_gen.
 
 Theorem C20_iap_exact_linear : forall thr t0 t1 A B C, 0 < thr -> t0 <= t1 -> A = 0 -> thr < Rabs B ->
   is_RInt (absP A B C) t0 t1 (iapR thr t0 t1 A B C).
@@ -293,11 +300,13 @@ Theorem C20_iap_exact_constant : forall thr t0 t1 A B C, 0 < thr -> t0 <= t1 -> 
 Proof. exact iapR_exact_constant. Qed.
 Print Assumptions C20_iap_exact_constant.
 
-(* the full statement (all coefficient triples, 1e-9) is FALSE of the faithful model: witnesses *)
-Theorem C20_iap_gap_refuted : exists t0 t1 A B C I, t0 <= t1 /\ is_RInt (absP A B C) t0 t1 I /\
-  Rabs (iapR iap_thrR t0 t1 A B C - I) > 1 / 2.
-Proof. exact iapR_gap_refuted. Qed.
-Print Assumptions C20_iap_gap_refuted.
+(* |A| equal to the code's threshold (the input class of the fixed finding C20-iap-gap): exact *)
+Theorem C20_iap_exact_at_threshold : forall t0 t1 A B C, t0 <= t1 -> Rabs A = iap_thrR ->
+  is_RInt (absP A B C) t0 t1 (iapR iap_thrR t0 t1 A B C).
+Proof. exact iapR_exact_at_threshold. Qed.
+Print Assumptions C20_iap_exact_at_threshold.
+
+(* the full statement (all coefficient triples, 1e-9) is still FALSE of the faithful model for 0 < |A| < thr: witness *)
 
 Theorem C20_iap_smallA_refuted : exists t0 t1 A B C I, t0 <= t1 /\ Rabs t0 <= 10 /\ Rabs t1 <= 10 /\
   Rabs A <= 10 /\ Rabs B <= 10 /\ Rabs C <= 10 /\ is_RInt (absP A B C) t0 t1 I /\
@@ -312,7 +321,7 @@ Print Assumptions C20_iap_smallA_bound_partial.
 
 (* the executable Q model (run against the implementation) computes the real model, given the sqrt contract *)
 Theorem C20_iapQ_is_iapR : forall (sq : Q -> Q) (t0 t1 A B C : Q),
-  ((iap_thr < Qabs A)%Q -> (0 < B * B / (4 * A * A) - C / A)%Q ->
+  ((iap_thr <= Qabs A)%Q -> (0 < B * B / (4 * A * A) - C / A)%Q ->
      Q2R (sq (B * B / (4 * A * A) - C / A)%Q) = sqrt (Q2R (B * B / (4 * A * A) - C / A)%Q)) ->
   Q2R (iapQ sq t0 t1 A B C) = iapR iap_thrR (Q2R t0) (Q2R t1) (Q2R A) (Q2R B) (Q2R C).
 Proof. exact iapQ_iapR_code. Qed.
